@@ -7,7 +7,7 @@
      vpn.rs, labeled.rs, mpls.rs.  NLRI of the other families enter as their
      wire bytes ([NRaw]): their framing is modelled, their inner encoding is not.
      Modelled structurally besides the prefix families: Flowspec (x4), RTC, EVPN route
-     types 1-5, SR Policy (x2); still opaque: BGP-LS, MUP (x2).
+     types 1-5, SR Policy (x2), MUP route types 1-4 (x2); still opaque: BGP-LS.
 
    Bytes are [N] (< 256), buffers are [list N].  A message is encoded into a
    list of frames.  Machine arithmetic that can overflow is written through
@@ -212,6 +212,29 @@ Definition enc_rtc (r : rtc) : list N :=
   | RtcExact a rt => [96] ++ be32 a ++ rt
   end.
 
+(* ---- MUP (mup.rs): architecture type 1 (3GPP-5G), route types 1-4 *)
+Inductive mup :=
+| Mup1 (rd : list N) (plen : N) (addr : list N)                                  (* Interwork Segment Discovery *)
+| Mup2 (rd addr : list N)                                                        (* Direct Segment Discovery *)
+| Mup3 (rd : list N) (plen : N) (addr : list N) (teid qfi : N) (ep : list N) (src : option (list N))   (* Type 1 ST *)
+| Mup4 (rd : list N) (ealen : N) (ep : list N) (teid : N).                       (* Type 2 ST *)
+(* encode_prefix: `&octets()[..byte_len.min(width)]` *)
+Definition mup_prefix (plen : N) (addr : list N) : list N :=
+  firstn (N.to_nat (N.min ((plen + 7) / 8) (len addr))) addr.
+Definition enc_mup (m : mup) : res (list N) :=
+  r <- (match m with
+        | Mup1 rd pl a => Ok (1, rd ++ [pl] ++ mup_prefix pl a)
+        | Mup2 rd a => Ok (2, rd ++ a)
+        | Mup3 rd pl a teid qfi ep src =>
+            Ok (3, rd ++ [pl] ++ mup_prefix pl a ++ be32 teid ++ [qfi] ++ [8 * len ep] ++ ep ++
+                   match src with None => [0] | Some s => [8 * len s] ++ s end)
+        | Mup4 rd el ep teid =>
+            (* `teid_be[..teid_bytes]`: slice panic past the four octets *)
+            let tb := ((el - 8 * len ep) + 7) / 8 in
+            if tb <=? 4 then Ok (4, rd ++ [el] ++ ep ++ firstn (N.to_nat tb) (be32 teid)) else Panic
+        end) ;;
+  Ok ([1] ++ be16 (fst r) ++ [trunc8 (len (snd r))] ++ snd r).
+
 Inductive nlri :=
 | NV4 (mask : N) (addr : list N)                               (* Ipv4Net; addr = 4 octets *)
 | NV6 (mask : N) (addr : list N)                               (* Ipv6Net; addr = 16 octets *)
@@ -223,6 +246,7 @@ Inductive nlri :=
 | NRtc (r : rtc)
 | NEvpn (e : evpn)
 | NSrp (dist color : N) (endpoint : list N)                    (* SrPolicyNlri; endpoint = 4 or 16 octets *)
+| NMup (m : mup)
 | NRaw (bytes : list N).                                       (* any other family: its wire bytes *)
 
 Definition pnlri : Type := N * nlri.     (* PathNlri { path_id, nlri } *)
@@ -265,6 +289,7 @@ Definition enc_nlri (p : profile) (n : nlri) : res (list N) :=
   | NRtc r => Ok (enc_rtc r)
   | NEvpn e => Ok (enc_evpn e)
   | NSrp d c ep => Ok ([if len ep =? 4 then 96 else 192] ++ be32 d ++ be32 c ++ ep)
+  | NMup m => enc_mup m
   | NRaw b => Ok b
   end.
 
@@ -651,6 +676,8 @@ Definition bulk_entry (kind i : N) : pnlri :=
   | 12 => (i + 1, NSrp i (100 + i mod 3) (10 :: b3 i))
   | 13 => (i + 1, NEvpn (Ev5 ([0; 2; 0; 1] ++ 0 :: b3 i) (pat_bytes 10 i) i (i mod 129)
                              ([32; 1; 13; 184] ++ b3 i ++ pat_bytes 9 i) (pat_bytes 16 (i + 1)) 7))
+  | 15 => (i + 1, NMup (Mup3 ([0; 0; 253; 232] ++ 0 :: b3 i) (i mod 33) (10 :: b3 i) i (i mod 64) [192; 0; 2; 1]
+                              (if i mod 2 =? 0 then None else Some [198; 51; 100; 7])))
   | 14 => (i + 1, NFlow true (Some ([0; 0; 253; 232] ++ 0 :: b3 i)) [FOps 3 [(129, 6)]; FOps 5 [(3, 1000 + i mod 50000); (197, 70000)]])
   | _ => (i + 1, NRaw (pat_bytes (N.to_nat (kind - 100)) i))
   end.
